@@ -2,6 +2,7 @@ import NibabelModel.Model.C06
 import NibabelModel.Lemmas.PySlice
 import NibabelModel.Lemmas.C06_Final
 import NibabelModel.Lemmas.C06_NpSpecProofs
+import NibabelModel.Lemmas.C06_GenFuncs
 /-! Props/C06 — property theorems for C06 (reading a slice from file bytes equals NumPy indexing).
     Stage A (per axis), stage B (segments), stage C (whole) — see DESIGN.md §5 C06.
 
@@ -315,5 +316,83 @@ example : nEllipsis [IdxItem.ellipsis, .newaxis, .slice ⟨some (-9), none, some
 theorem predict_shape_two_ellipses (idx : List IdxItem) (shape : List Nat) (he : 1 < nEllipsis idx) :
     npSpec idx shape = .error .value ∧ ∃ e, predictShape idx shape = .error e :=
   predictShape_two_ellipses' idx shape he
+
+/-! ## Stage T — the per-axis functions TRANSLATED FROM THE CURRENT SOURCE equal the model
+
+`Generated/C06Funcs.lean` is rewritten on every run by `harness/py2lean.py` from the source text of
+`fill_slicer`, `_full_slicer_len`, `slice2len`, `_positive_slice`, `threshold_heuristic` and
+`optimize_slicer` in the working tree of nibabel (statement by statement, in the `Except` monad over
+the Python value universe `Basic/PyVal`).  The theorems below are re-checked against that text: an edit
+of any of these functions that changes what it computes on some slice / axis length / flag combination
+/ heuristic answer breaks the corresponding proof, for ALL inputs, not the sampled ones. -/
+
+open Nb.Py in
+/-- **T1** translated `fill_slicer` = model, for every valid slice and axis length. -/
+theorem source_fill_slicer_eq (s : PySlice) (n : Nat) (hv : s.Valid) :
+    Gen.C06F.fill_slicer (V.ofPySlice s) (.int n) = .ok (ofFilled (fillSlicer s n)) :=
+  gen_fill_slicer_eq s n hv
+
+open Nb.Py in
+/-- **T1'** hence the slice the SOURCE `fill_slicer` returns selects what the Python slice selects. -/
+theorem source_fill_slicer_sel (s : PySlice) (n : Nat) (hv : s.Valid) :
+    ∃ f : Filled, Gen.C06F.fill_slicer (V.ofPySlice s) (.int n) = .ok (ofFilled f) ∧
+      f.toPy.sel n = s.sel n :=
+  ⟨_, gen_fill_slicer_eq s n hv, fillSlicer_sel s n hv⟩
+
+open Nb.Py in
+example : Gen.C06F.fill_slicer (V.ofPySlice ⟨some (-7), none, none⟩) (.int 5)
+    = .ok (.slice (.int 0) (.int 5) (.int 1)) := by decide
+
+open Nb.Py in
+/-- **T2** translated `_full_slicer_len` = model (`int(np.ceil(gap / step))` is the ceiling quotient). -/
+theorem source_full_slicer_len_eq (f : Filled) (hs : f.step ≠ 0) :
+    Gen.C06F.full_slicer_len (ofFilled f) = .ok (.int (fullSlicerLen f)) :=
+  gen_full_slicer_len_eq f hs
+
+open Nb.Py in
+/-- **T3** translated `slice2len` returns `len(range(n)[s])` for every valid slice and length. -/
+theorem source_slice2len_numpy (s : PySlice) (n : Nat) (hv : s.Valid) :
+    Gen.C06F.slice2len (V.ofPySlice s) (.int n) = .ok (.int ((s.sel n).length : Nat)) := by
+  rw [gen_slice2len_eq s n hv, slice2len_spec s n hv]
+
+open Nb.Py in
+example : Gen.C06F.slice2len (V.ofPySlice ⟨some 7, some (-9), some (-3)⟩) (.int 6) = .ok (.int 2) := by decide
+
+open Nb.Py in
+/-- **T4** translated `_positive_slice` = model, for every filled slice with non-zero step. -/
+theorem source_positive_slice_eq (f : Filled) (hs : f.step ≠ 0) :
+    Gen.C06F.positive_slice (ofFilled f) = .ok (ofFilled (positiveSlice f)) :=
+  gen_positive_slice_eq f hs
+
+open Nb.Py in
+example : Gen.C06F.positive_slice (.slice (.int 8) .none (.int (-3)))
+    = .ok (.slice (.int 2) (.int 9) (.int 3)) := by decide
+
+open Nb.Py in
+/-- **T5** translated `threshold_heuristic` = model heuristic, every argument / length / stride /
+    threshold. -/
+theorem source_threshold_heuristic_eq (a : HArg) (n stride thresh : Nat)
+    (hs : ∀ f, a = .slice f → f.step ≠ 0)
+    (hstop : ∀ f, a = .slice f → f.step > 0 → ∃ b, f.stop = some b) :
+    Gen.C06F.threshold_heuristic (ofHArg a) (.int n) (.int stride) (.int thresh)
+      = .ok (ofAction (thresholdHeuristic thresh a n stride)) :=
+  gen_threshold_heuristic_eq a n stride thresh hs hstop
+
+open Nb.Py in
+example : Gen.C06F.threshold_heuristic (.slice (.int 0) (.int 10) (.int 2)) (.int 10) (.int 8) (.int 256)
+    = .ok (.str "full") := by decide
+
+open Nb.Py in
+/-- **T6** translated `optimize_slicer` = model on every canonical item, for EVERY heuristic. -/
+theorem source_optimize_slicer_eq (h : Heuristic) (it : Item) (n : Nat) (allFull slowest : Bool)
+    (stride : Nat) (hit : it ≠ .newaxis) (hv : ∀ s, it = .slice s → s.Valid) :
+    Gen.C06F.optimize_slicer (ofItem it) (.int n) (.bool allFull) (.bool slowest) (.int stride) (liftH h)
+      = ofResult (optimizeSlicer h it n allFull slowest stride) :=
+  gen_optimize_slicer_eq h it n allFull slowest stride hit hv
+
+open Nb.Py in
+example : Gen.C06F.optimize_slicer (.slice (.int 8) .none (.int (-3))) (.int 10) (.bool true) (.bool false)
+      (.int 4) (liftH (fun _ _ _ => .contiguous))
+    = .ok (.tup2 (.slice (.int 2) (.int 9) (.int 1)) (.slice .none .none (.int (-3)))) := by decide
 
 end Nb.C06
